@@ -135,4 +135,36 @@ theorem C20_scalar_value (t : Template) (geoms : List RGeom) (v : Int) (fill : I
   · rfl
   · simp [rasterize, expandValues]
 
+/-- the statement the polygon monitor evaluates on the real output ("a cell is burnt iff its centre
+    lies inside the index-space polygon by the even–odd rule, cells whose centre is on the boundary
+    left open") specialises, on the ring of a proper integer-cornered box, to the box rule
+    `covered`: no cell centre lies on the boundary, and centre-inside = `covered` -/
+theorem C20_box_centre_rule (b : IBox) (i j : Nat) (hx : b.ix0 < b.ix1) (hy : b.iy0 < b.iy1) :
+    onBoundary [boxRing b] ((i : Rat) + 1 / 2, (j : Rat) + 1 / 2) = false ∧
+    insideRings [boxRing b] ((i : Rat) + 1 / 2, (j : Rat) + 1 / 2) = covered b i j := by
+  have hyr : (b.iy0 : Rat) < (b.iy1 : Rat) := Rat.natCast_lt_natCast.mpr hy
+  constructor
+  · have a1 := add_half_ne_natCast b.ix0 i
+    have a2 := add_half_ne_natCast b.ix1 i
+    have a3 := add_half_ne_natCast b.iy0 j
+    have a4 := add_half_ne_natCast b.iy1 j
+    simp only [onBoundary, boxRing, ringEdges, List.any_cons, List.any_nil, onSegment, Bool.or_false]
+    simp
+    refine ⟨?_, ?_, ?_, ?_⟩ <;> intro _ <;> grind
+  · simp only [insideRings, boxRing, ringEdges, List.map_cons, List.map_nil, List.foldl_cons, List.foldl_nil,
+      ← List.countP_eq_length_filter, List.countP_cons, List.countP_nil, crosses_horizontal,
+      crosses_vertical_up _ _ _ _ _ hyr, crosses_vertical_down _ _ _ _ _ hyr, covered]
+    simp only [natCast_le_add_half, add_half_le_natCast, add_half_lt_natCast]
+    by_cases g1 : i < b.ix0 <;> by_cases g2 : i < b.ix1 <;> by_cases g3 : b.iy0 ≤ j <;> by_cases g4 : b.iy1 ≤ j <;>
+      simp [g1, g2, g3, g4] <;> omega
+
+-- non-vacuity
+example : binOf [0, 1/4, 1/2, 3/4] (3/10) = 1 := by decide +kernel
+example : binOf [0, 1/4, 1/2, 3/4] 2 = 4 := by decide +kernel
+example : rasterBoxes 3 2 [⟨0, 0, 2, 1, 5⟩, ⟨1, 0, 3, 2, 7⟩] 0 = [[5, 0], [7, 7], [7, 7]] := by decide +kernel
+example : rasterize ⟨true, [0, 1/4, 1/2, 3/4], [0, 100, 200]⟩ [.box (1/4) 100 (3/4) 300] (.one 1) 0 false
+    = .ok ⟨[0, 1/4, 1/2, 3/4], [0, 100, 200], [[0, 0, 0], [0, 1, 1], [0, 1, 1], [0, 0, 0]]⟩ := by decide +kernel
+example : rasterize ⟨false, [0], [0]⟩ [.interval 0 1] (.many []) 0 false = .error .invalid := by decide +kernel
+example : centreRuleViolations 2 2 [boxRing ⟨0, 0, 1, 2, 1⟩] [[true, true], [false, false]] = [] := by decide +kernel
+
 end SE.Proofs.C20
